@@ -28,7 +28,7 @@ ASSUMPTIONS = [
     "the workflow, not the model, is under test: grid fits use a one-state linear model, 4-6 rows, 2 values per hyper-parameter",
 ]
 
-N = {"quick": {"grid": 4, "sm": 2, "small": 4}, "thorough": {"grid": 32, "sm": 16, "small": 32}}
+N = {"quick": {"grid": 5, "sm": 2, "small": 4}, "thorough": {"grid": 32, "sm": 16, "small": 32}}
 GRAPH = {"Start": ["Symbolic_Model"], "Symbolic_Model": ["Fit_Model"], "Fit_Model": []}
 TRANSITION = {("Start", "Symbolic_Model"): "symbolic_model", ("Symbolic_Model", "Fit_Model"): "fit_model"}
 
@@ -76,7 +76,7 @@ def setup_worker(ctx):
     def recording_call(self, estimator, X, y=None):
         cfg = estimator.get_params()["config"]
         SCORED.append({f: getattr(cfg, f, None) for f in ("innovation_filtering", "max_dt_sec",
-                                                           "common_subexpression_elimination")})
+                                                           "common_subexpression_elimination", "extra_validation")})
         return orig_call(self, estimator, X, y)
 
     usm.NisScore.__call__ = recording_call
@@ -245,6 +245,11 @@ def _grid(R, rng, ctx):
     from formak import python, ui
 
     defn = small_defn(rng)
+    if ctx.get("_unit_i", 0) % 5 == 4:
+        # a model that passes the extra validation, searched with extra_validation=True as the only candidate
+        from .c17 import constant_velocity_defn
+
+        defn = constant_velocity_defn(rng)
     b = build.Built(defn)
     defaults = dataclasses.asdict(python.Config())
     pool = {"innovation_filtering": [None, 1.5, 3.0, 6.5, 9.0], "max_dt_sec": [0.02, 0.25, 0.5],
@@ -264,6 +269,9 @@ def _grid(R, rng, ctx):
     X = data_for(rng, defn, rng.randint(5, 6))
     X[1::2, -1] *= 12.0  # outlier readings: rejected for small thresholds, used for large / disabled
     mode = ("fields", "config1", "single", "config2")[ctx.get("_unit_i", 0) % 4]
+    if ctx.get("_unit_i", 0) % 5 == 4:
+        mode = "extra_validation"
+        grid = {"innovation_filtering": iv, "extra_validation": [True]}
     R.stats.inc(f"grid_mode_{mode}")
     if mode == "fields":
         # candidate values as any sequence scikit-learn accepts: tuple, numpy array (np.linspace-style)
@@ -336,7 +344,7 @@ def _grid_once(R, rng, defn, b, grid, X, reverse):
         return
     gs = RECORDED[-1]
     R.stats.inc("grid_fits_checked")
-    FIELDS = ("innovation_filtering", "max_dt_sec", "common_subexpression_elimination")
+    FIELDS = ("innovation_filtering", "max_dt_sec", "common_subexpression_elimination", "extra_validation")
 
     def fields_of(params):
         """configuration fields a parameter assignment specifies (a 'config' object specifies all of them)"""
